@@ -105,6 +105,30 @@ def run(ctx):
                 ctx.case(key=('ends', a_, b_, n_, kind), nontrivial=n_ > 23)
                 ctx.check(xs.shape == (n_,) and lo_ == a_ and hi_ == b_ and xs.min() >= a_ and xs.max() <= b_, 'ind_to_poi:end-' + kind,
                           'box [%g, %g], n=%d, %s grid: end nodes (%r, %r) are not exactly the bounds, or a node lies outside the box' % (a_, b_, n_, kind, lo_, hi_))
+    # bounds / sizes given as arrays of small integer types (int8 / int16 / uint8 / int32) mean the same box as float lists
+    for (a_, b_, dts) in ((-100, 100, (np.int8, np.int16, np.int32)), (-7, 0, (np.int8, np.int64)), (0, 200, (np.uint8, np.int16)),
+                          (-30000, 30000, (np.int16, np.int32)), (3, 250, (np.uint8,))):
+        for d_ in (1, 2, 3):
+            n_ = 9
+            Xq = rng.uniform(a_ - 5, b_ + 5, size=(11, d_))
+            Iq = np.stack([rng.integers(0, n_, size=11) for _ in range(d_)], axis=1)
+            for kind in ('uni', 'cheb'):
+                ref_i = teneva.poi_to_ind(Xq, [float(a_)] * d_, [float(b_)] * d_, [n_] * d_, kind)
+                ref_x = teneva.ind_to_poi(Iq, [float(a_)] * d_, [float(b_)] * d_, [n_] * d_, kind)
+                ref_s = teneva.poi_scale(Xq, [float(a_)] * d_, [float(b_)] * d_, kind)
+                ref_c = teneva.poi_scale(Xq, [float(a_)] * d_, [float(b_)] * d_, [2., 5.])
+                for dt in dts:
+                    aa, bb = np.array([a_] * d_, dtype=dt), np.array([b_] * d_, dtype=dt)
+                    nn = np.array([n_] * d_, dtype=np.int16)
+                    ctx.case(key=('int-bounds', a_, b_, d_, kind, str(np.dtype(dt))), nontrivial=True)
+                    try:
+                        ok_ = np.array_equal(teneva.poi_to_ind(Xq, aa, bb, nn, kind), ref_i) and np.array_equal(teneva.ind_to_poi(Iq, aa, bb, nn, kind), ref_x) \
+                            and np.array_equal(teneva.poi_scale(Xq, aa, bb, kind), ref_s) and np.array_equal(teneva.poi_scale(Xq, aa, bb, [2., 5.]), ref_c) \
+                            and np.array_equal(aa, [a_] * d_) and np.array_equal(bb, [b_] * d_)
+                        why_ = 'differs from the same box given as float lists'
+                    except Exception as ex:
+                        ok_, why_ = False, 'raised %s: %s' % (type(ex).__name__, ex)
+                    ctx.check(ok_, 'grid:int-bounds', 'box [%d, %d]^%d given as %s arrays (%s grid): %s' % (a_, b_, d_, np.dtype(dt), kind, why_))
     # option handling: scalar vs per-dimension, inconsistent lengths, history independence of the option arrays
     for t in range(20 if quick else 200):
         d = int(rng.integers(1, 5))
